@@ -761,3 +761,12 @@ Proof.
       apply Z.eqb_eq in H1, H2. subst. reflexivity.
     + intros H. injection H as -> ->. split; [lia|]. rewrite !Z.eqb_refl. reflexivity.
 Qed.
+
+(* with a dial timeout of 0 (= none for net.Dialer) no bound in terms of the configured timeouts exists:
+   the connection attempt lasts as long as the network lets it *)
+Lemma scan_zero_dial_unbounded p t_data ip port (B : Z) :
+  exists s, B < r_fin (scan p 0 t_data None ip port s).
+Proof.
+  exists {| s_dial := After (Z.max 0 B + 1) DRefused; s_linger := true; s_write := Never; s_reads := [] |}.
+  unfold scan. cbn [s_dial sched_due]. unfold dial_limit. cbn [Z.eqb]. unfold wait, natural. cbn [r_fin mk]. lia.
+Qed.
